@@ -240,7 +240,7 @@ def mesh_strategy(tier):
 SUBS = [
     Sub("datasets", strategy, check_spec, quick=150, thorough=800),
     Sub("polyomino_meshes", mesh_strategy, check_spec, quick=100, thorough=600),
-    Sub("star_meshes", lambda tier: star_mesh_spec(), check_spec, quick=150, thorough=1000),
+    Sub("star_meshes", lambda tier: star_mesh_spec(), check_spec, quick=400, thorough=2000),
     Sub("signed_zero_corners", lambda tier: signed_zero_spec(), check_spec, quick=30, thorough=200),
     Sub("sparse_large_grids", lambda tier: sparse_grid_spec(), check_sparse, quick=25, thorough=200),
 ]
